@@ -31,6 +31,10 @@ PROPS = {
             'expect': ['gen_hasref:trait HasRefUnit::_fit', 'gen_hasref:lemma_C05_natural_unit_product', 'gen_hasref:lemma_C05_natural_unit_quotient',
                        'gen_hasref:lemma_C05_fitted_unit_product', 'gen_hasref:lemma_C05_fitted_unit_quotient',
                        'gen_hasref:lemma_C05_reference_units_product', 'gen_hasref:lemma_C05_reference_units_quotient']},
+    'C07': {'level': 'proof', 'quick': ['c07_q_f64', 'c07_q_dec', 'c07_astro_f64'] + TYPES_REF, 'thorough': ['types_astro_f64_ref'],
+            'expect': ['c07_q_f64:lemma_C07_scale_Length_Inch', 'c07_q_dec:lemma_C07_scale_Length_Inch', 'c07_astro_f64:lemma_C07_scale_Length_Parsec',
+                       'c07_q_f64:lemma_C07_si_prefixes_consistent_Mass', 'types_q_f64_ref:lemma_C07_ref_unit_scale_one_Length',
+                       'types_q_f64_ref:impl LinearScaledUnit for LengthUnit::scale']},
     'C08': {'level': 'proof', 'quick': ['gen_hasref'] + TYPES_Q, 'thorough': ['types_astro_f64_ref'],
             'expect': ['gen_hasref:impl Quantity for AmountT::new', 'gen_hasref:impl Quantity for AmountT::amount',
                        'gen_hasref:impl Quantity for AmountT::unit', 'gen_hasref:impl LinearScaledUnit for One::scale',
